@@ -411,6 +411,12 @@ void vm_execute_id_dim_local(vm * machine, bytecode * code)
                                               code->id_dim_local.index)]
                        .addr;
     mem_ptr array = gc_get_arr_ref(machine->collector, addr);
+    if (array == nil_ptr)
+    {
+        machine->running = VM_EXCEPTION;
+        machine->exception = EXCEPT_NIL_POINTER;
+        return;
+    }
     unsigned int dim_elems = gc_get_arr_dim_elems(machine->collector, array,
                                                   code->id_dim_local.dim_index);
     mem_ptr elems = gc_alloc_int(machine->collector, dim_elems);
